@@ -46,6 +46,18 @@ CLAIMED["C01"] = dict(
          "history-level non-interference is a corollary argument (dropped is write-only), stated in DESIGN, not yet a Lean theorem.",
     design="§8 C01", technique="Lean 4 proof (per-step full-state equality) + differential correspondence with attacker stream")
 
+CLAIMED["C19"] = dict(
+    text="Lean theorems with scrypt and SHA-256 as ARBITRARY function parameters: every password verifies against its own hash "
+         "(base64 round trip proved by 3-byte-group induction, format/parse inverse), another password verifies exactly when the "
+         "digests are equal, different salts give different hash strings, and for EVERY pair of arguments verify_password returns "
+         "ValueError/TypeError, False or True - True iff the string is a well-formed 4-field scrypt:1 record whose embedded digest "
+         "equals the derived one (C19_malformed), every proper prefix of a genuine hash raises (C19_truncated). Model tied to auth.py "
+         "by differential runs with the real scrypt (KDF answers recorded as oracle values; the model decides whether and with which "
+         "parameters the KDF is consulted).",
+    note=TRUST + "collision resistance / one-wayness of SHA-256+scrypt and os.urandom freshness assumed outside Lean; parameter sets heavier "
+         "than the defaults excluded (MemoryError is host dependent); CPython's lenient a2b_base64 mirrored by the model.",
+    design="§8 C19", technique="Lean 4 proof (codec inverses, total case analysis of verify) + differential correspondence")
+
 REASON_PENDING = "model and theorems for this property are not built yet in this revision (planned, see DESIGN.md §13); not claimed until its check exists"
 
 def main():
